@@ -88,23 +88,40 @@ fn absorb_fuzz(check: &mut Check, h: Option<std::thread::JoinHandle<fuzzrun::Fuz
   }
 }
 
+/// Evidence samples: the engine's non-trivial sample at `slot` becomes the given case (a
+/// non-trivial case of a class added later), if the engine saw one.
+fn class_sample(check: &mut Check, slot: usize, sample: Option<serde_json::Value>) {
+  if let Some(v) = sample {
+    if slot < check.stats.nt_samples.len() {
+      check.stats.nt_samples[slot] = v;
+    } else {
+      check.stats.nt_samples.push(v);
+    }
+  }
+}
+
 fn check_c20(check: &mut Check) -> (String, Vec<String>, String) {
   let ctx = check.ctx.clone();
   let fz = start_fuzz(&ctx, "fz_encoders", 600_000);
   let out = vcore::drive(&ctx, &check.findings, 1, ctx.tier.pick(30_000, 1_500_000), c20_json::strategy, c20_json::execute);
   check.absorb("json", out);
   eprintln!("[C20] json engine done at {:.1}s", ctx.wall());
-  // keep room in the evidence samples for one case of every engine
+  // keep room in the evidence samples for one case of every engine; where the engine saw a
+  // non-trivial case of one of its added classes, that case is the engine's sample
   check.stats.nt_samples.truncate(1);
+  class_sample(check, 0, c20_json::CLASS_SAMPLE.take());
   check.stats.samples.truncate(0);
   let out = vcore::drive(&ctx, &check.findings, 2, ctx.tier.pick(30_000, 1_500_000), c20_pattern::strategy, c20_pattern::execute);
   check.absorb("pattern", out);
   eprintln!("[C20] pattern engine done at {:.1}s", ctx.wall());
   check.stats.nt_samples.truncate(2);
+  class_sample(check, 1, c20_pattern::CLASS_SAMPLE.take());
   check.stats.samples.truncate(0);
   let max_ops = ctx.tier.pick(40usize, 90usize);
   let out = vcore::drive(&ctx, &check.findings, 3, ctx.tier.pick(8_000, 400_000), move || c20_roller::strategy(max_ops), c20_roller::execute);
   check.absorb("roller", out);
+  check.stats.nt_samples.truncate(3);
+  class_sample(check, 2, c20_roller::CLASS_SAMPLE.take());
   eprintln!("[C20] roller engine done at {:.1}s", ctx.wall());
   absorb_fuzz(check, fz);
   // generator health: the classes the property quantifies over must actually be reached
@@ -146,7 +163,9 @@ fn check_c20(check: &mut Check) -> (String, Vec<String>, String) {
     check.require_class(class, min);
   }
   (
-    "three proptest generators (JSON events; pattern strings + events; roller policies + histories of writes/clock steps/restarts). \
+    "three proptest generators (JSON events, incl. custom fields named like optional record keys on events with and without that attribute; \
+     pattern strings + events, incl. padded directives whose width is placed around the character count and the byte length of multi-byte content; \
+     roller policies + histories of writes/clock steps/restarts over directories holding rolled files dated before and after the clock). \
      Non-trivial = json: some string of the event (target, message, field key or string value) contains a character that needs JSON escaping; \
      pattern: the configured pattern renders the message and the message is empty or contains a newline, CR, %, quote, backslash, brace, control or non-ASCII character; \
      roller: the history produced at least one size roll and at least one time roll, or ran (re)started over a directory that already held rolled files and rolled again. \
@@ -186,6 +205,7 @@ fn check_c19(check: &mut Check) -> (String, Vec<String>, String) {
   check.absorb("e2e", out);
   eprintln!("[C19] e2e engine done at {:.1}s", ctx.wall());
   check.stats.nt_samples.truncate(1);
+  class_sample(check, 0, c19_e2e::CLASS_SAMPLE.take());
   check.stats.samples.truncate(1);
 
   let fz = start_fuzz(&ctx, "fz_logroute", 400_000);
